@@ -20,8 +20,9 @@ def families(tier, seed):
 
 def main():
     chk = Check("C07", "exploration")
-    driver.run_family(
-        chk, "overrides-vs-spec-args", families(chk.tier, chk.seed), cases.case_fn, site="C07/overrides",
+    _cases = families(chk.tier, chk.seed)
+    _results = driver.run_family(
+        chk, "overrides-vs-spec-args", _cases, cases.case_fn, site="C07/overrides",
         rule="three nodes built from ONE NodeTemplate object, two templates interleaved T1,T2,T1,T2, a hierarchy whose "
              "sub-circuits reuse templates; operations: update_var on one node (first / middle / last), on initial values, with "
              "per-node arrays over `all` (constants and initial values), repeated and mixed sequences of up to 4 calls, an edge "
@@ -31,6 +32,8 @@ def main():
              "initial state and vector field must equal those of the model with exactly the addressed nodes overridden; "
              "vectorize off and on; distinct = (scenario, vectorize)",
         sample_of=cases.sample_of)
+    driver.run_sequences(chk, "overrides-vs-spec-args-in-sequence", _cases, _results, cases.case_fn, site="C07/overrides",
+                         limit=20 if chk.tier == "quick" else 120, seed=chk.seed)
     rc = chk.finish(
         explanation="Bounded: each scenario applies the operations through the real API and to the MDL (harness) and checks the "
                     "C01 clauses (layout, argument values, derivative) against the overridden MDL.",
